@@ -101,6 +101,8 @@ impl RuntimeData {
                 })?;
             let table = CaoLangTable::with_capacity(8, self.memory.clone()).map_err(|err| {
                 debug!("Failed to init table {:?}", err);
+                // give the header back, it is not tracked by the object list yet
+                self.memory.dealloc(obj_ptr, Layout::new::<CaoLangObject>());
                 ExecutionErrorPayload::OutOfMemory
             })?;
 
@@ -235,10 +237,11 @@ impl RuntimeData {
                 })?;
 
             let layout = CaoLangString::layout(payload.len());
-            let mut ptr = self
-                .memory
-                .alloc(layout)
-                .map_err(|_| ExecutionErrorPayload::OutOfMemory)?;
+            let mut ptr = self.memory.alloc(layout).map_err(|_| {
+                // give the header back, it is not tracked by the object list yet
+                self.memory.dealloc(obj_ptr, Layout::new::<CaoLangObject>());
+                ExecutionErrorPayload::OutOfMemory
+            })?;
 
             let result: *mut u8 = ptr.as_mut();
             std::ptr::copy(payload.as_ptr(), result, payload.len());
